@@ -1857,7 +1857,8 @@ fn eval_in_list(left: &Value, items: &[Value]) -> Value {
       | inner @ Value::DateTime(_)
       | inner @ Value::YearsAndMonthsDuration(_)
       | inner @ Value::DaysAndTimeDuration(_)
-      | inner @ Value::Context(_) => {
+      | inner @ Value::Context(_)
+      | inner @ Value::Null(_) => {
         if let Value::Boolean(true) = eval_in_equal(left, inner) {
           return VALUE_TRUE;
         }
